@@ -37,7 +37,7 @@ func init() {
 			if tier == "quick" {
 				return []fw.Stage{{Name: "race", Flavour: "race", Cases: np*2 + 30, MaxProcs: 14}}
 			}
-			return []fw.Stage{{Name: "race", Flavour: "race", Cases: np*16 + 3000, MaxProcs: 14}}
+			return []fw.Stage{{Name: "race", Flavour: "race", Cases: np*8 + 1000, MaxProcs: 14}}
 		},
 		RunCase: runC11,
 		Conclude: func(tier string, c map[string]int64, _ []string) string {
@@ -391,7 +391,7 @@ func runC11(c *fw.Case) {
 	if !c.Thorough() {
 		kindIx, relIx = rng.Intn(len(c11RootKinds)), rng.Intn(len(c11Relations))
 	}
-	storm := c.No >= np*2 && !c.Thorough() || c.No >= np*16
+	storm := c.No >= np*2 && !c.Thorough() || c.No >= np*8
 	if c.No%50 == 11 {
 		n = 33000 + rng.Intn(8000) // frames beyond 2^15 rows (size thresholds of pooled or cached structures)
 		c.Count("large_frames", 1)
